@@ -242,6 +242,19 @@ func TestVerifSQLCap(t *testing.T) {
 				tx := ledger.NewTransaction().WithPostings(ledger.NewPosting("ACC#1", "ACC#2", "AST#1", big.NewInt(700000005)))
 				return st.CommitTransaction(ctx, &tx)
 			})
+			// multi-segment addresses: what the store writes next to an address (address_array, sources, destinations,
+			// sources_arrays, destinations_arrays) — the row invariants the filter obligations assume
+			emit("UpsertAccounts.segments", base(), st, rec, func() error {
+				return st.UpsertAccounts(ctx, ledger.AccountWithDefaultMetadata{Account: &ledger.Account{Address: "SEG#1:SEG#2:SEG#3", Metadata: metadata.Metadata{}}},
+					ledger.AccountWithDefaultMetadata{Account: &ledger.Account{Address: "SEG#4", Metadata: metadata.Metadata{}}})
+			})
+			emit("CommitTransaction.segments", base(), st, rec, func() error {
+				tx := ledger.NewTransaction().WithPostings(
+					ledger.NewPosting("SEG#1:SEG#2", "SEG#3", "AST#1", big.NewInt(700000005)),
+					ledger.NewPosting("SEG#3", "SEG#4:SEG#5:SEG#6", "AST#1", big.NewInt(700000005)),
+					ledger.NewPosting("SEG#1:SEG#2", "SEG#7", "AST#1", big.NewInt(700000005)))
+				return st.CommitTransaction(ctx, &tx)
+			})
 			emit("ReadLogWithIdempotencyKey", base(), st, rec, func() error {
 				_, err := st.ReadLogWithIdempotencyKey(ctx, "IK#1")
 				return err
